@@ -218,7 +218,7 @@ func c20Run(w0 *kernel.Worker, j *c20Job, rep *kernel.Report) (*Fail, error) {
 		fs.Add("C20/notifications/"+fmt.Sprintf("cooldown%d", j.Cooldown), fmt.Sprintf("N=%d cooldown=%dmin sequence %s: %d notifications delivered, expected %d", j.N, j.Cooldown, j.Seq, gotN, sent))
 	}
 	// history: one system-generated row per evaluation
-	hr, err := httpCall(w, "query", "GET", "/api/alerts/"+ar.ID+"/history?sort_order=ASC&limit=100&offset=0", "", nil)
+	hr, err := httpCall(w, "query", "GET", "/api/alerts/"+ar.ID+"/history?sort_order=ASC&limit=1000&offset=0", "", nil)
 	if err != nil {
 		return die(err)
 	}
@@ -282,7 +282,7 @@ func c20Sequences(n int, cooldown int, tier string) []string {
 
 func C20() int {
 	rep := kernel.NewReport("C20", "model_checking")
-	rep.Rule = "alert machine: window/interval N ∈ {1,2,3} × cool-down ∈ {0, 60 min} × every evaluation-outcome sequence over {held, not held} of length ≤ N+3 (N+5 in thorough), for cool-down 60 additionally " +
+	rep.Rule = "alert machine: window/interval N ∈ {1,2,3} × cool-down ∈ {0, 60 min} × every evaluation-outcome sequence over {held, not held} of length ≤ N+3 (N+5 in thorough), plus three sequences for N = 102 (more outcomes than one page of the history), for cool-down 60 additionally " +
 		"with the step '61 minutes pass' at every position; each outcome goes through the real handleAlertCondition of an alert created by the real " +
 		"creation path on the sqlite store; after every evaluation the state read through the HTTP API must be Firing iff the last N outcomes held, Pending iff the latest held but not all N, Normal otherwise; " +
 		"webhook deliveries counted by a loopback sink must match 'on entering Firing, repeated only after the cool-down, once on return to Normal'; one history row per evaluation. keyed stores: see coverage.kv_*. " +
@@ -299,6 +299,12 @@ func C20() int {
 					}
 				}
 			}
+			// a long window (N = 102: more evaluation outcomes than one page of the history holds): held throughout, and
+			// with one miss early / just inside the window
+			long := 102
+			emit(c20Job{N: long, Cooldown: 0, Seq: strings.Repeat("T", long+2)})
+			emit(c20Job{N: long, Cooldown: 0, Seq: "TF" + strings.Repeat("T", long+1)})
+			emit(c20Job{N: long, Cooldown: 0, Seq: strings.Repeat("T", long) + "F" + strings.Repeat("T", long)})
 		},
 		Run:        c20Run,
 		Key:        func(j *c20Job) string { return fmt.Sprintf("%d|%d|%s", j.N, j.Cooldown, j.Seq) },
